@@ -296,11 +296,13 @@ def qcon_def(kind):
 
 # ---------------------------------------------------------------------------------- orthogonality: BOUNDED
 @harness('C07', 'bounded/orthogonality', kind='bounded', seeds=1,
-         variants=['zernike-disk', 'jacobi-weight', 'qbfs-slopes', 'q2d-slopes', 'families-vs-scipy', 'hermite-laguerre-weights'],
+         variants=['zernike-disk', 'jacobi-weight', 'qbfs-slopes', 'q2d-slopes', 'families-vs-scipy', 'every-evaluation-route', 'hermite-laguerre-weights'],
          fuc=['prysm.polynomials.zernike.zernike_nm', 'prysm.polynomials.jacobi.jacobi', 'prysm.polynomials.qpoly.Qbfs',
               'prysm.polynomials.hermite.hermite_He', 'prysm.polynomials.hermite.hermite_H', 'prysm.polynomials.laguerre.laguerre',
               'prysm.polynomials.qpoly.Q2d', 'prysm.polynomials.qpoly.Q2d_seq', 'prysm.polynomials.laguerre.laguerre_seq',
-              'prysm.polynomials.jacobi.jacobi_seq', 'prysm.polynomials.hermite.hermite_He_seq', 'prysm.polynomials.hermite.hermite_H_seq'])
+              'prysm.polynomials.jacobi.jacobi_seq', 'prysm.polynomials.hermite.hermite_He_seq', 'prysm.polynomials.hermite.hermite_H_seq',
+              'prysm.polynomials.qpoly.compute_z_zprime_Q2d', 'prysm.polynomials.qpoly.clenshaw_qbfs', 'prysm.polynomials.qpoly.change_basis_Qbfs_to_Pn',
+              'prysm.polynomials.zernike.zernike_nm_seq'])
 def orthogonality(which):
     """BOUNDED (a theorem about the definitions, checked on the real functions by exact Gauss quadrature, not proved):
     Zernike unit RMS / mutual orthogonality over the unit disk for n <= 8 (quick) / 14; Jacobi-family orthogonality under
@@ -411,6 +413,48 @@ def orthogonality(which):
             A, B, C = abc(0, a, b)
             good = good and bool(np.allclose(A * x + B, sp.eval_jacobi(1, a, b, x), rtol=1e-12, atol=1e-12))
         check('jacobi-first-recurrence-step', good)
+    elif which == 'every-evaluation-route':
+        # each member of the Q and Zernike families is reachable by more than one routine (single mode, sequence in any order,
+        # Clenshaw sum with one unit coefficient, repeated evaluation from the same coefficient array): all must give the polynomial
+        P = 'prysm.polynomials.'
+        Q = P + 'qpoly.'
+        rng = np.random.default_rng(11)
+        u = rng.uniform(0.05, 0.95, (3, 4))
+        t = rng.uniform(-3, 3, (3, 4))
+        nmax = 9 if big else 6
+        ok_q2d = ok_qbfs = ok_qcon = ok_alias = True
+        for m in (1, 2, 3, 4):
+            for n in range(nmax + 1):
+                for sgn in (1, -1):
+                    cs = np.zeros(n + 1)
+                    cs[n] = 1.0
+                    ams, bms = [[] for _ in range(m)], [[] for _ in range(m)]
+                    (ams if sgn > 0 else bms)[m - 1] = cs
+                    z = get(Q + 'compute_z_zprime_Q2d')([], ams, bms, u, t)[0]
+                    ok_q2d = ok_q2d and bool(np.allclose(z, get(Q + 'Q2d')(n, sgn * m, u, t), atol=1e-9))
+        for n in range(nmax + 1):
+            cs = np.zeros(n + 1)
+            cs[n] = 1.0
+            keep = cs.copy()
+            want = get(Q + 'Qbfs')(n, u)
+            for _ in range(2):          # twice from the same float64 array
+                ok_qbfs = ok_qbfs and bool(np.allclose(get(Q + 'clenshaw_qbfs')(cs, u * u), want, atol=1e-9))
+                ok_qbfs = ok_qbfs and bool(np.allclose(get(Q + 'compute_z_zprime_Qbfs')(cs, u, u * u)[0], want, atol=1e-9))
+                ok_qbfs = ok_qbfs and bool(np.allclose(get(Q + 'compute_z_zprime_Q2d')(cs, [], [], u, t)[0], want, atol=1e-9))
+            ok_alias = ok_alias and bool(np.array_equal(cs, keep))
+            ok_qcon = ok_qcon and bool(np.allclose(get(Q + 'compute_z_zprime_Qcon')(cs, u, u * u)[0], get(Q + 'Qcon')(n, u), atol=1e-9))
+        check('q2d-unit-coefficient-sum-is-the-mode', ok_q2d)
+        check('qbfs-unit-coefficient-sum-is-the-mode-on-every-call', ok_qbfs)
+        check('qcon-unit-coefficient-sum-is-the-mode', ok_qcon)
+        check('coefficient-arrays-untouched', ok_alias)
+        znm, zseq = get(P + 'zernike.zernike_nm'), get(P + 'zernike.zernike_nm_seq')
+        ok_z = True
+        for nms in ([(8, 0), (6, 0), (4, 0), (2, 0)], [(2, 2), (2, -2)], [(3, 1), (1, 1), (5, 1), (3, -1)], [(4, 2), (2, 2), (6, -2), (0, 0)],
+                    [tuple(int(v) for v in poly) for poly in (get(P + 'zernike.noll_to_nm')(j) for j in range(15, 0, -1))]):
+            for norm in (True, False):
+                got = list(zseq(nms, u, t, norm=norm))
+                ok_z = ok_z and all(np.allclose(g_, znm(n_, m_, u, t, norm=norm), atol=1e-9) for g_, (n_, m_) in zip(got, nms))
+        check('zernike-sequence-in-any-order-is-the-mode', ok_z)
     else:
         nmax = 14 if big else 8
         He, Hh, Lg = get('prysm.polynomials.hermite.hermite_He'), get('prysm.polynomials.hermite.hermite_H'), get('prysm.polynomials.laguerre.laguerre')
